@@ -2,6 +2,7 @@
 import MutagenModel.Model.Container.Dsf
 import MutagenModel.Model.Container.DsfFull
 import MutagenModel.Model.Container.DsfM
+import MutagenModel.Model.Container.DsfLoadM
 import Driver.FileOps
 import Driver.Util
 import Driver.FlacC
@@ -28,13 +29,28 @@ def dsfOp (a : Args) : String :=
       | some n => fun _ _ => n
       | none => fun p _ => if p < 0 then 0 else p
     showResult (saveEntry (a.nat "vmaj" 4) (a.bytes "frames") ans (envOf a) { data := a.bytes "data", pos := a.nat "pos" 0 })
+  | "loadm" =>
+    -- `DSF(fileobj)` under a fault schedule; `kind=`: notag / nov2 / v1only:<n> / tag:<len(body)>:<v1 or ->
+    let r := loadEntry (envOf a) { data := a.bytes "data", pos := a.nat "pos" 0 }
+    showResult r fun v => match v with
+      | .noTag => "kind=notag"
+      | .noV2 => "kind=nov2"
+      | .v1only n => s!"kind=v1only:{n}"
+      | .tag b v => s!"kind=tag:{b.length}:{match v with | some n => toString n | none => "-"}"
+  | "loadx" =>
+    match loadX (a.bytes "data") with
+    | .error e => s!"err {e.name}"
+    | .ok .noTag => "ok kind=notag"
+    | .ok .noV2 => "ok kind=nov2"
+    | .ok (.v1only n) => s!"ok kind=v1only:{n}"
+    | .ok (.tag b v) => s!"ok kind=tag:{b.length}:{match v with | some n => toString n | none => "-"}"
   | "deletem" =>
     showResult (deleteEntry (a.nat "method" 0 == 1) (envOf a) { data := a.bytes "data", pos := a.nat "pos" 0 })
   | "load" =>
     match load (a.bytes "data") with
     | .error e => s!"err {e.name}"
     | .ok .noTag => "ok notag"
-    | .ok .searchV1 => "ok searchv1"
+    | .ok (.searchV1 _) => "ok searchv1"
     | .ok (.tag b) => s!"ok tag={hexField b}"
   | "walk" =>
     -- what the three chunk loaders see: total size, pointer; whether fmt and data chunk load
